@@ -2,6 +2,7 @@ package interp
 
 import (
 	"fmt"
+	"os"
 	"go/types"
 	"sort"
 	"strings"
@@ -113,6 +114,11 @@ type Machine struct {
 	varOrder  []string
 	nowSeq    int
 	lastNow   *sym.Term
+	nowNsec   *sym.Term
+	prefer    []*sym.Term
+	liftOK    map[liftKey]bool
+	liftMemo  map[*sym.Term]*sym.Term
+	mulMemo   map[*sym.Term]bool
 	watch     map[*Value]string
 	watchHits []string
 	opaqueSeq int
@@ -166,6 +172,11 @@ func NewMachine(prog *ssa.Program, cfg Config) (*Machine, error) {
 	s, err := solver.New(cfg.SolverKind, cfg.TimeoutMs)
 	if err != nil {
 		return nil, err
+	}
+	if lf := os.Getenv("VERIF_SOLVER_LOG"); lf != "" {
+		if f, err := os.OpenFile(lf, os.O_CREATE|os.O_WRONLY|os.O_APPEND, 0o644); err == nil {
+			s.Log = f
+		}
 	}
 	m := &Machine{
 		prog:      prog,
@@ -237,6 +248,11 @@ func (m *Machine) RunPath(entry *ssa.Function, item workItem) (res *PathResult) 
 	m.varOrder = nil
 	m.nowSeq = 0
 	m.lastNow = nil
+	m.nowNsec = nil
+	m.prefer = nil
+	m.liftOK = map[liftKey]bool{}
+	m.liftMemo = map[*sym.Term]*sym.Term{}
+	m.mulMemo = map[*sym.Term]bool{}
 	m.watch = nil
 	m.watchHits = nil
 	m.opaqueSeq = 0
@@ -327,9 +343,13 @@ func (m *Machine) checkSat(extra *sym.Term) (solver.Result, sym.Model) {
 	m.slv.Send(m.pr.Flush())
 	m.slv.Push()
 	m.slv.Send("(assert " + ref + ")\n")
+	tq := time.Now()
 	r, err := m.slv.Check()
 	if err != nil {
 		panic(err)
+	}
+	if m.cfg.Trace && time.Since(tq) > 2*time.Second {
+		fmt.Fprintf(os.Stderr, "  slow query %.1fs -> %v: %s\n", time.Since(tq).Seconds(), r, truncate(extra.String(), 300))
 	}
 	var mod sym.Model
 	if r == solver.Sat {
@@ -373,7 +393,7 @@ func (m *Machine) readModel(s *solver.Solver) sym.Model {
 		panic(fmt.Errorf("model extraction failed: %v", err))
 	}
 	for i, sy := range ask {
-		mod[askNames[i]] = vals[sy]
+		mod[askNames[i]] = vals[strings.Trim(sy, "|")]
 	}
 	return mod
 }
@@ -382,7 +402,7 @@ func (m *Machine) prSent(v *sym.Term) bool { return m.pr.Has(v) }
 
 // checkSatAlt re-runs the whole query on a fallback solver (fresh process state).
 func (m *Machine) checkSatAlt(extra *sym.Term) (solver.Result, sym.Model) {
-	kinds := []string{"z3-new", "cvc5"}
+	kinds := []string{"z3-new", "cvc5-int", "z3"}
 	for _, k := range kinds {
 		if k == m.cfg.SolverKind {
 			continue
@@ -416,7 +436,7 @@ func (m *Machine) checkSatAlt(extra *sym.Term) (solver.Result, sym.Model) {
 					r = solver.Unknown
 				} else {
 					for i, sy := range ask {
-						mod[names[i]] = vals[sy]
+						mod[names[i]] = vals[strings.Trim(sy, "|")]
 					}
 				}
 			}
@@ -432,6 +452,10 @@ func (m *Machine) checkSatAlt(extra *sym.Term) (solver.Result, sym.Model) {
 
 // branch decides a symbolic condition, forking when both sides are feasible.
 func (m *Machine) branch(c *sym.Term) bool {
+	if c.IsConst() {
+		return c.Val == 1
+	}
+	c = m.liftCond(c)
 	if c.IsConst() {
 		return c.Val == 1
 	}
@@ -561,6 +585,7 @@ func (m *Machine) concretize(t *sym.Term, what string) uint64 {
 
 // assume restricts the path; ends it when infeasible.
 func (m *Machine) assume(c *sym.Term) {
+	c = m.liftCond(c)
 	if c.IsTrue() {
 		return
 	}
@@ -607,6 +632,10 @@ func (m *Machine) violation(label string, mod sym.Model) Violation {
 func (m *Machine) assert(label string, cond *sym.Term) {
 	regs := m.regions
 	m.regions = nil
+	cond = m.liftCond(cond)
+	for i := range regs {
+		regs[i].cond = m.liftCond(regs[i].cond)
+	}
 	if cond.IsTrue() {
 		m.res.Asserts++
 		return
@@ -647,6 +676,16 @@ func (m *Machine) assert(label string, cond *sym.Term) {
 	}
 	switch res {
 	case solver.Sat:
+		if len(m.prefer) > 0 {
+			// try to find a witness that also satisfies the replay preferences
+			pref := outside
+			for _, p := range m.prefer {
+				pref = m.ctx.And(pref, p)
+			}
+			if r2, mod2 := m.checkSat(pref); r2 == solver.Sat {
+				mod = mod2
+			}
+		}
 		m.res.Violations = append(m.res.Violations, m.violation(label, mod))
 	case solver.Unsat:
 		m.res.Asserts++
@@ -788,3 +827,10 @@ func sortedKeys(mp map[string]int) []string {
 
 var _ = strings.Join
 var _ = time.Now
+
+func truncate(s string, n int) string {
+	if len(s) > n {
+		return s[:n] + "…"
+	}
+	return s
+}
